@@ -102,7 +102,7 @@ def _exec_one(cid, seed, tier, index, plan=None):
     sc = load_scenario(cid)
     if plan is None:
         plan = jclean(sc.gen(rng_for(seed, cid, index), tier, index))
-    limit = int(getattr(sc, "PLAN_TIMEOUT", 120))
+    limit = int(getattr(sc, "PLAN_TIMEOUT", 300))
     signal.signal(signal.SIGALRM, _alarm)
     signal.alarm(limit)
     try:
@@ -116,7 +116,7 @@ def _exec_one(cid, seed, tier, index, plan=None):
 
 def _worker(args):
     cid, seed, tier, indices = args
-    faulthandler.dump_traceback_later(900, exit=True)
+    faulthandler.dump_traceback_later(3600, exit=True)
     res = []
     for i in indices:
         try:
@@ -204,7 +204,7 @@ def run_check(cid, tier, seed, n_override=None, wall_override=None, workers=None
             return True
 
         submit_more()
-        hard_deadline = t0 + wall + 600
+        hard_deadline = t0 + wall + 1500
         while pending:
             fin, _ = wait(pending, timeout=5, return_when=FIRST_COMPLETED)
             if time.time() > hard_deadline:
